@@ -8,6 +8,8 @@ import tlc
 import cons
 
 ASSUME = [
+    "in every other execution the bootstrap's GETINFO entry-guards answer names two relays of the first document (they may leave the "
+    "consensus later like any other relay)",
     "in every third execution the second document is published by Tor right after it acknowledged the NEWCONSENSUS subscription, i.e. "
     "while the bootstrap still has requests outstanding; the view for the first document is observed at that very moment",
     "documents are rendered by the harness as r / a / s / w / p lines (a, w, p optional, in dir-spec order) and delivered as GETINFO ns/all "
@@ -39,7 +41,8 @@ def run(pid, tier, seed):
                 rs = [r for r in cons.RELAYS if rng.random() < 0.6] or ["ra"]
                 s.append(dict(a="Lookup", form=rng.choice(["hex", "tilde", "eq", "circ"]), rs=rs, d=s[-1]["d"]))
         # in every third execution the second document arrives while the bootstrap is still running
-        traces.append(cons.replay(s, seed * 100000 + i, early=(i % 3 == 1)))
+        # in every other execution Tor names two relays of the first document as its entry guards when the bootstrap asks
+        traces.append(cons.replay(s, seed * 100000 + i, early=(i % 3 == 1), eg=(i % 2 == 1)))
         if len(s) >= 2:
             seen.add(common.digest(s))
     rep.cov["evaluations"] = len(traces)
@@ -49,14 +52,14 @@ def run(pid, tier, seed):
                        "optional 'p'; distinct by hash; non-trivial = at least one replacement document")
     known = dict((f["id"], f) for f in common.open_findings(pid))
     ok = pipeline.validate(rep, pid, "Consensus", "ConsensusTrace", "ConsensusTrace.cfg", traces, chunk=250, known=known,
-                           payload=lambda t: dict(script=pipeline.strip_obs(t), salt=t["salt"], early=t["early"]))
+                           payload=lambda t: dict(script=pipeline.strip_obs(t), salt=t["salt"], early=t["early"], eg=t["eg"]))
     rep.cov["samples"] = [dict(steps=t["steps"][:2]) for t in ok[:1]]
     return rep.finish()
 
 
 def replay(pid, path):
     p = json.load(open(path))
-    t = cons.replay(p["script"], p["salt"], p.get("early", False))
+    t = cons.replay(p["script"], p["salt"], p.get("early", False), p.get("eg", False))
     res, r = tlc.validate_traces("ConsensusTrace", "ConsensusTrace.cfg", [t])
     x = res[0]
     known = set(f["id"] for f in common.open_findings(pid))
